@@ -278,7 +278,7 @@ Section CrashOps.
   Proof.
     intros sg s v R E1 E2 E3 E4 E5 x W [D N] V.
     assert (Sf : stage_fresh s).
-    { destruct R as (_ & _ & [(c & nv & pre & (_ & Sf & _) & _)|(_ & _ & _ & _ & Sf & _)]); exact Sf. }
+    { destruct R as (_ & _ & [(c & nv & pre & (_ & Sf & _) & _)|(_ & _ & _ & Sf & _)]); exact Sf. }
     eapply (rest_agree H cfg); [exact R|exact W| | | |].
     - intros i Li. rewrite N in Li. rewrite V, E4. now apply Sf.
     - intros d. now rewrite D.
